@@ -109,6 +109,12 @@ def marshalPacket (p : Packet) : Except Err Bytes :=
   | .ok () =>
     .ok (writeHeader p.hdr (p.padLen != 0) ++ p.payload ++ List.replicate p.padLen.toNat p.padLen)
 
+/-- `RtpPacket::marshal_into` (the relay fast path): the same writer WITHOUT `validate` — it always produces
+bytes, so a payload type above 127, more than 15 CSRCs or an unaligned / over-long extension is masked or
+truncated by `write_to` (known finding `codec:rtp:marshal_into-masks:*`) -/
+def marshalInto (p : Packet) : Bytes :=
+  writeHeader p.hdr (p.padLen != 0) ++ p.payload ++ List.replicate p.padLen.toNat p.padLen
+
 /-! ### RTX (RFC 4588), `src/rtx.rs` -/
 
 /-- `wrap_rtx_packet` -/
